@@ -377,7 +377,7 @@ META = dict(
     functions=["fast_sdmx.c: SDMXcontract_ao_to_bas(_bwd/_grid/_grid_bwd/_l1/_l1_bwd) block partition", "conv_interpolation.c: contract_grad_terms_parallel partition and per-thread scratch",
                "part B (-fopenmp IR, footprints): cider_coefs.c cider_coefs_gto/vk1/spline_gq/qg, cider_ind_etb/zexp, smooth_cider_exponents; model_utils.c evaluate_se_kernel/_antisym/_spin/_spin_v2; cider_grids.c reduce_angc_to_ylm/reduce_ylm_to_angc; convolutions.c contract_rad_to_orb/contract_orb_to_rad, "
                "multiply_atc_integrals(_vk); conv_interpolation.c project_conv_to_spline/project_spline_to_conv, fill_l1_coeff_fwd/bwd, compute_mol_convs_single_new, compute_pot_convs_single_new, add_lp1_term_fwd/bwd, "
-               "add_lp1_onsite_new_fwd/bwd (through LCAOInterpolator(Direct).project_orb2grid/project_grid2orb); cider_fft.c write_fft_input/read_fft_output"],
+               "add_lp1_onsite_new_fwd/bwd (through LCAOInterpolator(Direct).project_orb2grid/project_grid2orb); fast_sdmx.c SDMXcontract_ao_to_bas_l1/_l1_bwd, _grid/_grid_bwd, contract_shl_to_alpha_l1/_bwd; cider_fft.c write_fft_input/read_fft_output"],
     bounds=dict(part_B="loops of <= 8 iterations (<= 12 for the orbital-to-grid pair) at the C05/C11/C20 harness sizes; one virtual thread per iteration; every pair of iterations compared per barrier phase", team_size="1 <= T <= %d" % T_MAX, problem_size="0 <= ngrids <= 2^31 - 1 - %d (incl. ngrids < T and T not dividing ngrids)" % T_MAX, natm="1..4096 (scratch queries)"),
     stubs=["omp_get_num_threads() = T, omp_get_thread_num() = t in [0, T): arbitrary", "C int division modelled by z3 integer division under the proved side condition numerator >= 0, divisor > 0"],
     assumptions=["atm_g[g] in [0, natm) (caller contract of contract_grad_terms_parallel)", "results additionally depend on reassociation inside reductions/BLAS, which the property allows",
@@ -385,5 +385,5 @@ META = dict(
                  "stores of the value already present are not races (listed in the evidence tags)",
                  "part B, team model (schedules/*): one legal execution per team size T in {2, 3}: static -> contiguous blocks or round-robin chunks, dynamic/guided -> chunk c to thread c mod T in increasing order; "
                  "uninitialised heap doubles are unconstrained reals; a failing identity is replayed on the compiled library with real teams (2, 3, 4 threads, <= 40 runs each)",
-                 "NOT covered: the remaining work-shared loops of conv_interpolation.c (nuclear-gradient terms, unused variants), fast_sdmx.c, frac_lapl.c, numint_cider/nr_numint.c, pbc_tools.c, MKL/MPI branches, reproducibility of BLAS itself"],
+                 "NOT covered: the remaining work-shared loops of conv_interpolation.c (nuclear-gradient terms, unused variants), the remaining loops of fast_sdmx.c, frac_lapl.c, numint_cider/nr_numint.c, pbc_tools.c, MKL/MPI branches, reproducibility of BLAS itself"],
 )
